@@ -3,6 +3,7 @@ package main
 import (
 	"fmt"
 	"go/token"
+	"go/types"
 	"sort"
 	"strings"
 
@@ -455,6 +456,8 @@ func runC16(c *Ctx) {
 	checkWatchedAddressSetOnlyGrows(c, "C16-R6")
 	checkAddrTypeFollowsBranch(c, "C16-R4")
 	checkRecoveryStartsAtCurrentBirthdayBlock(c, "C16-R6")
+	checkWatchListCoversEveryRequestComponent(c, "C16-R1")
+	checkNeutrinoRecoveryWaitsForBackend(c, "C16-R6")
 	checkBirthdayMargin(c, "C16-R6")
 	checkFoundIndexSetsAccumulate(c, "C16-R2")
 	checkFilterRequestCarriesEveryAddress(c, "C16-R1")
@@ -721,4 +724,127 @@ func checkRecoveryStartsAtCurrentBirthdayBlock(c *Ctx, rule string) {
 		}
 	}
 	c.Floor(rule, "birthday-block recordings on the startup path", n, 2)
+}
+
+// checkWatchListCoversEveryRequestComponent: on the compact-filter backends a block is fetched and looked at only if its
+// filter matches the watch list built from the filter request. That list is built from EVERY address-carrying component
+// of the request — both branches' address sets and the watched outpoints: each map-typed field of the request is ranged
+// over by the builder, every iteration appending to the list. A component ranged over twice in place of another drops
+// that branch: payments to it in blocks that touch nothing else of the wallet are never found.
+func checkWatchListCoversEveryRequestComponent(c *Ctx, rule string) {
+	p := c.P
+	fn := p.Func("chain", "", "buildFilterBlocksWatchList")
+	if fn == nil {
+		c.Unresolved(rule, "chain.buildFilterBlocksWatchList")
+		return
+	}
+	// the map-typed fields of the request struct
+	var fields []string
+	if len(fn.Params) > 0 {
+		t := fn.Params[0].Type()
+		if pt, ok := t.Underlying().(*types.Pointer); ok {
+			t = pt.Elem()
+		}
+		if st, ok := t.Underlying().(*types.Struct); ok {
+			for i := 0; i < st.NumFields(); i++ {
+				if _, isMap := st.Field(i).Type().Underlying().(*types.Map); isMap {
+					fields = append(fields, st.Field(i).Name())
+				}
+			}
+		}
+	}
+	ranged := map[string]bool{}
+	for _, f := range p.regionOf(fn) {
+		for _, l := range loopsOf(f) {
+			if l.Kind == "for" {
+				continue
+			}
+			appends := l.containsInstr(func(ins ssa.Instruction) bool {
+				call, ok := ins.(*ssa.Call)
+				return ok && calleeShort(&call.Call) == "append"
+			})
+			if !appends {
+				continue
+			}
+			for _, fld := range fields {
+				if strings.HasSuffix(l.Over, "field:"+fld) || strings.HasSuffix(l.Over, "."+fld) || strings.Contains(l.Over, fld) {
+					if bad := l.MustPassPerIteration(p, func(ins ssa.Instruction) bool {
+						call, ok := ins.(*ssa.Call)
+						return ok && calleeShort(&call.Call) == "append"
+					}); bad == "" {
+						ranged[fld] = true
+					}
+				}
+			}
+		}
+	}
+	for _, fld := range fields {
+		c.Check(rule, "watch-list-covers-request-component:"+fld, fn.Pos(), ranged[fld],
+			"the compact-filter watch list is not built from the request's "+fld+": blocks whose only wallet-relevant content concerns that component never match their filter, are never fetched, and the addresses they pay (and every later index only they bring into the window) are never found")
+	}
+	c.Floor(rule, "address-carrying components of the filter request", len(fields), 3)
+}
+
+// checkNeutrinoRecoveryWaitsForBackend: the recovery reads the backend's best height once, at its start, and scans with
+// its look-ahead up to that height only; what arrives later comes through the ordinary rescan, which has no look-ahead.
+// A light client that is still catching up therefore has to be waited for: the recovery is reachable without the
+// wait-until-synced step only over the edge on which "this is a recovery on the neutrino backend" is false.
+func checkNeutrinoRecoveryWaitsForBackend(c *Ctx, rule string) {
+	p := c.P
+	sw := p.Func("wallet", "Wallet", "syncWithChain")
+	if sw == nil {
+		c.Unresolved(rule, "wallet.Wallet.syncWithChain")
+		return
+	}
+	fromBackEnd := func(v ssa.Value) bool {
+		for _, o := range (&Slicer{P: p, ThroughBinOp: true}).Origins(v) {
+			if call, ok := o.(*ssa.Call); ok && call.Call.IsInvoke() && call.Call.Method.Name() == "BackEnd" {
+				return true
+			}
+		}
+		return false
+	}
+	isNeutrinoRecovery := func(v ssa.Value) bool {
+		if fromBackEnd(v) {
+			return true
+		}
+		// `backend == "neutrino" && window > 0`: the short-circuit's merge, controlled by the backend test
+		if ph, ok := stripConv(v).(*ssa.Phi); ok {
+			if d := ph.Block().Idom(); d != nil && len(d.Instrs) > 0 {
+				if iff, ok := d.Instrs[len(d.Instrs)-1].(*ssa.If); ok && fromBackEnd(iff.Cond) {
+					return true
+				}
+			}
+		}
+		return false
+	}
+	n := 0
+	for _, call := range callsNamed(sw, "recovery") {
+		n++
+		q := &PathQuery{Fn: sw, Barrier: isCallNamed("waitUntilBackendSynced")}
+		tgt := call
+		q.Target = func(ins ssa.Instruction, _ *ssa.BasicBlock) bool { return ins == ssa.Instruction(tgt) }
+		q.EdgeBarrier = func(from *ssa.BasicBlock, si int) bool {
+			if len(from.Instrs) == 0 {
+				return false
+			}
+			iff, ok := from.Instrs[len(from.Instrs)-1].(*ssa.If)
+			if !ok {
+				return false
+			}
+			inner, neg := unwrapNot(iff.Cond)
+			if !isNeutrinoRecovery(inner) {
+				return false
+			}
+			// the edge on which the flag is false
+			if neg {
+				return si == 0
+			}
+			return si == 1
+		}
+		skipped := len(q.From(nil)) > 0
+		c.Check(rule, "neutrino-recovery-waits-for-synced-backend", call.Pos(), !skipped,
+			"syncWithChain can start the recovery on the neutrino backend without having waited for the backend to be synced: the look-ahead scan stops at the light client's current height, the rest of the chain is only rescanned for already known addresses, and addresses used beyond them are never found")
+	}
+	c.Floor(rule, "recovery starts in syncWithChain", n, 1)
 }
